@@ -222,7 +222,10 @@ def run(rep, facts, tier):
             a0, a1 = expr_str(unwrap_value(x[2][0]), -10), expr_str(x[2][1], -10)
             if a0 == 'arg1' and 'abs' in a1 and 'arg2' in a1:
                 neg_ok = True
-    pos_ok = any(op == 'Lt' and 'arg2' in a and b == 'arg1' and t == 'ok' and f_ == 'err' for op, a, b, t, f_ in conds)
+    pos_ok = any(op == 'Lt' and 'arg2' in a and b == 'arg1' and t == 'ok' and f_ == 'err' for op, a, b, t, f_ in conds) or \
+        any(op == 'Ge' and 'arg2' in a and b == 'arg1' and t == 'err' and f_ == 'ok' for op, a, b, t, f_ in conds) or \
+        any(op == 'Gt' and a == 'arg1' and 'arg2' in b and t == 'ok' and f_ == 'err' for op, a, b, t, f_ in conds) or \
+        any(op == 'Le' and a == 'arg1' and 'arg2' in b and t == 'err' and f_ == 'ok' for op, a, b, t, f_ in conds)      # the same test, spelled the other way round
     sign = any(op == 'Lt' and a == 'arg2' and b == '0' for op, a, b, t, f_ in conds)
     rep.add('C12.R4', 'C12.R4:relative_index:negative-boundary', neg_ok and sign,
             'negative index: None exactly when |i| > len (so -len is the first element)' if neg_ok and sign else
